@@ -16,6 +16,13 @@ CHECKS = {
             'another tree, detached node, MISSING) is executed up to the stated history depth; after every transition '
             'the parent/path/lookup/root/alias/detached invariant is evaluated on all nodes of all roots.',
             BASE_NOTE),
+    'C04': ('E2-enum', 'model_checking',
+            'bounded-exhaustive enumeration of the value-spec grammar (depth 2), all ordered pairs, laws decided by the real apply() over a boundary-complete value pool',
+            'L1 idempotent apply / spec unchanged and L2 default fixpoint for every spec x pool value; L3 (is_compatible => '
+            'acceptance containment) and L4 (successful extend => extension accepts no more than the base on shared '
+            'fields, base compatible with it) for every ordered pair of the ~420 specs; containment is decided exactly '
+            'inside the grammar because the pool holds a representative of every cell of every atomic predicate.',
+            BASE_NOTE),
     'C07': ('E1-statespace', 'model_checking',
             'enumeration of (value, clone method) pairs + explicit-state BFS over mutation histories on either copy with a non-interference invariant',
             'Fidelity (equality, type, per-node flags and value specs, topology, identity disjointness, leaf/Ref sharing '
